@@ -17,7 +17,8 @@ describe(
     "to the scheduler hand-off crosses a branch on ClusterConfig.is_canceled with the hand-off on the not-canceled side; "
     "(2) cancel_jobs asks the scheduler to cancel every persisted active id unconditionally and then marks the submission "
     "canceled on every normal path; (3) the mark stores the flag and serialises it under the cluster lock; (4) the "
-    "cancel-jobs command acts only while promoted; (5) the flag is never reset by code outside the constructor.",
+    "cancel-jobs command acts only while promoted; (5) the flag is never reset by code outside the constructor."
+    " After a cancel the completion step still completes: with no active id completion is forced without further conditions.",
     [
         "the scheduler honours scancel",
         "ClusterConfig.is_canceled read by a submitter is the persisted value (C10: promotion loads the file under the lock)",
@@ -198,3 +199,10 @@ def c14_6(ctx, r):
     dz = ctx.fn("Cluster.deserialize")
     a = ctx.arg_for(ds[0], dz, "deserialize_jobs")
     r.check(isinstance(a, ast.Constant) and a.value is True, "the handle carries the persisted job status (deserialize_jobs=True)", key_of(cj, "deserialize_jobs"), ds[0].loc, "cancel-jobs loads the cluster without its job status: there are no ids to cancel")
+
+
+@rule(P, "C14.7", "T13", "after a cancel the completion step still completes: with no active batch completion is forced unconditionally (never-run jobs become missing)", min_obligations=3)
+def c14_7(ctx, r):
+    from .c05 import completion_decision
+
+    completion_decision(ctx, r, "C14.7")
